@@ -607,6 +607,128 @@ theorem simplify_pres {ctx nb nt D} (hnb : nb = true) (hD : ScopeOK ctx nt D) (h
     show eval (flattenLoop (size (evalConstants q) + 1) (evalConstants q)) ctx s d = _
     rw [f2 s d hd]; exact e2 s d hd⟩
 
+/-! ### termination of `Simplify`'s loop: a changing `flatten` step removes a node -/
+
+theorem sizeL_append (a b : List Q) : sizeL (a ++ b) = sizeL a + sizeL b := by
+  induction a with
+  | nil => simp [sizeL]
+  | cons c r ih => simp [sizeL, ih]; omega
+
+theorem size_leaf (q : Q) (h : isLeaf q = true) : size q = 1 := by
+  cases q <;> first | rfl | simp [isLeaf] at h
+
+theorem spliceOne_size (b : Bool) (ch : Q) :
+    sizeL (spliceOne b ch).1 ≤ size ch ∧ ((spliceOne b ch).2 = true → sizeL (spliceOne b ch).1 < size ch) := by
+  unfold spliceOne
+  split
+  · simp [size]
+  · simp [size]
+  · simp [sizeL]
+
+theorem spliceOne_unchanged (b : Bool) (ch : Q) (h : (spliceOne b ch).2 = false) : (spliceOne b ch).1 = [ch] := by
+  unfold spliceOne at h ⊢
+  split <;> simp_all
+
+theorem flattenL_size (b : Bool) (cs : List Q)
+    (hch : ∀ c ∈ cs, size (flatten c).1 ≤ size c ∧ ((flatten c).2 = true → size (flatten c).1 < size c)) :
+    sizeL (flattenL b cs).1 ≤ sizeL cs ∧ ((flattenL b cs).2 = true → sizeL (flattenL b cs).1 < sizeL cs) := by
+  induction cs with
+  | nil => simp [flattenL, sizeL]
+  | cons c r ih =>
+    obtain ⟨i1, i2⟩ := ih (fun x hx => hch x (by simp [hx]))
+    obtain ⟨c1, c2⟩ := hch c (by simp)
+    obtain ⟨s1, s2⟩ := spliceOne_size b (flatten c).1
+    simp only [flattenL, sizeL, sizeL_append]
+    refine ⟨by omega, ?_⟩
+    intro hchg
+    simp only [Bool.or_eq_true] at hchg
+    rcases hchg with (h | h) | h
+    · have := c2 h; omega
+    · have := s2 h; omega
+    · have := i2 h; omega
+
+theorem flatten_size (q : Q) :
+    size (flatten q).1 ≤ size q ∧ ((flatten q).2 = true → size (flatten q).1 < size q) := by
+  induction q using Q.ind with
+  | hconst v => simp [flatten]
+  | hand cs ih =>
+    by_cases h1 : cs.length = 1
+    · obtain ⟨c, rfl⟩ := List.length_eq_one_iff.mp h1
+      simp [flatten_and_single, size, sizeL]
+    · simp only [flatten_and_multi cs h1, size]
+      obtain ⟨a, b⟩ := flattenL_size true cs ih
+      exact ⟨by omega, fun h => by have := b h; omega⟩
+  | hor cs ih =>
+    by_cases h1 : cs.length = 1
+    · obtain ⟨c, rfl⟩ := List.length_eq_one_iff.mp h1
+      simp [flatten_or_single, size, sizeL]
+    · simp only [flatten_or_multi cs h1, size]
+      obtain ⟨a, b⟩ := flattenL_size false cs ih
+      exact ⟨by omega, fun h => by have := b h; omega⟩
+  | hnot c ih =>
+    simp only [flatten, size]
+    obtain ⟨a, b⟩ := ih
+    exact ⟨by omega, fun h => by have := b h; omega⟩
+  | htype t c ih =>
+    simp only [flatten, size]
+    obtain ⟨a, b⟩ := ih
+    exact ⟨by omega, fun h => by have := b h; omega⟩
+  | hboost w c ih =>
+    simp only [flatten, size]
+    obtain ⟨a, b⟩ := ih
+    exact ⟨by omega, fun h => by have := b h; omega⟩
+  | hcs c _ => simp [flatten]
+  | hleaf q hl => simp [flatten_leaf q hl]
+
+theorem flattenL_unchanged (b : Bool) (cs : List Q)
+    (hch : ∀ c ∈ cs, (flatten c).2 = false → (flatten c).1 = c) (h : (flattenL b cs).2 = false) :
+    (flattenL b cs).1 = cs := by
+  induction cs with
+  | nil => simp [flattenL]
+  | cons c r ih =>
+    simp only [flattenL, Bool.or_eq_false_iff] at h ⊢
+    obtain ⟨⟨h1, h2⟩, h3⟩ := h
+    rw [spliceOne_unchanged b _ h2, hch c (by simp) h1, ih (fun x hx => hch x (by simp [hx])) h3]
+    rfl
+
+theorem flatten_unchanged (q : Q) : (flatten q).2 = false → (flatten q).1 = q := by
+  induction q using Q.ind with
+  | hconst v => simp [flatten]
+  | hand cs ih =>
+    by_cases h1 : cs.length = 1
+    · obtain ⟨c, rfl⟩ := List.length_eq_one_iff.mp h1
+      simp [flatten_and_single]
+    · simp only [flatten_and_multi cs h1]
+      intro h
+      rw [flattenL_unchanged true cs ih h]
+  | hor cs ih =>
+    by_cases h1 : cs.length = 1
+    · obtain ⟨c, rfl⟩ := List.length_eq_one_iff.mp h1
+      simp [flatten_or_single]
+    · simp only [flatten_or_multi cs h1]
+      intro h
+      rw [flattenL_unchanged false cs ih h]
+  | hnot c ih => simp only [flatten]; intro h; rw [ih h]
+  | htype t c ih => simp only [flatten]; intro h; rw [ih h]
+  | hboost w c ih => simp only [flatten]; intro h; rw [ih h]
+  | hcs c _ => simp [flatten]
+  | hleaf q hl => simp [flatten_leaf q hl]
+
+/-- with fuel above the node count the loop ends at a tree that `flatten` leaves unchanged -/
+theorem flattenLoop_fixpoint (n : Nat) (q : Q) (h : size q < n) : (flatten (flattenLoop n q)).2 = false := by
+  induction n generalizing q with
+  | zero => omega
+  | succ n ih =>
+    simp only [flattenLoop]
+    split
+    · rename_i hc
+      have := (flatten_size q).2 hc
+      exact ih _ (by omega)
+    · rename_i hc
+      have hc' : (flatten q).2 = false := by simpa using hc
+      rw [flatten_unchanged q hc']
+      exact hc'
+
 /-! ### file/content expansion, case scopes -/
 
 theorem expandFileContent_pres {ctx nb nt D} : Pres ctx nb nt D expandFileContent := by
